@@ -280,12 +280,18 @@ func processLine(line []byte, indent int) ([]byte, int, error) {
 		trimmedLineString := fmt.Sprintf("##!> include %s", matches[1])
 		if len(matches[2]) > 0 {
 			trimmedLineString += fmt.Sprintf(" -- %s", matches[2])
+		} else if matches[2] != nil {
+			// a separator without replacements is still text of the line
+			trimmedLineString += " --"
 		}
 		trimmedLine = []byte(trimmedLineString)
 	} else if matches := includeExceptRegex.FindSubmatch(line); matches != nil {
 		trimmedLineString := fmt.Sprintf("##!> include-except %s %s", matches[1], matches[2])
 		if len(matches[3]) > 0 {
 			trimmedLineString += fmt.Sprintf(" -- %s", matches[3])
+		} else if matches[3] != nil {
+			// a separator without replacements is still text of the line
+			trimmedLineString += " --"
 		}
 		trimmedLine = []byte(trimmedLineString)
 	}
